@@ -42,8 +42,9 @@ Viol(p, s) == [prop |-> p, sig |-> s]
 \* is some source newer than both the last attempt and the generated file?
 Newer(o) == LET ref == IF cfg.gen /\ gen.present /\ gen.m > o.at THEN gen.m ELSE o.at
             IN IF \E f \in Matched : files[f].m >= ref THEN "some" ELSE "none"
-Class(o) == ":newer-source=" \o Newer(o) \o ":generates=" \o (IF ~cfg.gen THEN "na" ELSE IF gen.present THEN "present" ELSE "absent")
-            \o (IF cfg.collide THEN ":colliding-names" ELSE "")
+\* the name collision can only be the cause once the OTHER task has been attempted
+Class(o, task) == ":newer-source=" \o Newer(o) \o ":generates=" \o (IF ~cfg.gen THEN "na" ELSE IF gen.present THEN "present" ELSE "absent")
+            \o (IF cfg.collide /\ ok[IF task = "t" THEN "u" ELSE "t"].how # "none" THEN ":colliding-names" ELSE "")
 
 ReadOnly == {"dry", "status", "list", "listjson", "summary", "drydir", "dryfailpre", "dryforce"}
 RunModes == {"run", "other", "fail1", "fail2", "failpre", "depfail1", "cancelsib", "prompt", "kill1", "kill2"}
@@ -95,14 +96,14 @@ InvViol(mode, obs) ==
   \* C04: skipped only if the most recent attempt for this fingerprint succeeded and generates exist
   (IF mode \in RunModes /\ SkippedIn(mode, obs) /\ ~(clean /\ GenOK)
    THEN {Viol("C04", (IF ~clean THEN "skipped-unsound" ELSE "skipped-with-missing-generates")
-                       \o ":" \o cfg.method \o ":last-attempt=" \o (IF o.valid THEN (IF o.how = "force" THEN "ok-forced" ELSE "ok") ELSE o.how) \o Class(o))} ELSE {})
+                       \o ":" \o cfg.method \o ":last-attempt=" \o (IF o.valid THEN (IF o.how = "force" THEN "ok-forced" ELSE "ok") ELSE o.how) \o Class(o, task))} ELSE {})
   \cup
   \* C05: idempotence, and re-execution after any change
   (IF mode \in RunModes /\ ~SkippedIn(mode, obs) /\ clean /\ GenOK /\ StatOK
    THEN {Viol("C05", "rerun-without-change:" \o cfg.method \o ":after-" \o o.how)} ELSE {})
   \cup
   (IF mode \in RunModes /\ SkippedIn(mode, obs) /\ o.valid /\ o.fp # FP
-   THEN {Viol("C05", "skipped-after-change:" \o cfg.method \o (IF o.how = "force" THEN ":after-force" ELSE "") \o Class(o))} ELSE {})
+   THEN {Viol("C05", "skipped-after-change:" \o cfg.method \o (IF o.how = "force" THEN ":after-force" ELSE "") \o Class(o, task))} ELSE {})
   \cup
   (IF mode \in RunModes /\ SkippedIn(mode, obs) /\ clean /\ ~GenOK
    THEN {Viol("C05", "skipped-with-missing-generates:" \o cfg.method)} ELSE {})
